@@ -11,7 +11,7 @@ ID = 'C05'
 LEVEL = 'exploration'
 RUNS = {'quick': 16000, 'thorough': 300000}
 CHUNK = 50
-PROBES = ['peer_terminate_inside_open_window', 'switch_between_data_and_string', 'switch_between_data_and_string_both_threads', 'switch_between_lookup_chunks',
+PROBES = ['many_threads_pending', 'newthread_names_live_peer', 'peer_terminate_inside_open_window', 'switch_between_data_and_string', 'switch_between_data_and_string_both_threads', 'switch_between_lookup_chunks',
           'switch_between_string_chunks', 'switch_after_start', 'switch_inside_sample', 'three_or_more_threads',
           'dropped_record']
 RULE = ('one run = 2..6 thread programs, each executed solo (baseline) and merged under 6 seeded schedules of different '
@@ -57,6 +57,17 @@ def draw_sensitive(rng, per, table):
 
 
 def generate(rng, index, tier):
+    if index % 499 == 3:
+        # many threads: every one announces a thread/process (data record, then its name string); with a round-robin merge
+        # all data records are pending at once before the first string arrives
+        n = [34, 70, 140, 300][(index // 499) % 4]
+        threads = []
+        for ti in range(n):
+            ctx = worlds.Ctx(ti, 1000 + ti)
+            op = worlds.op_newthread(rng, 900000 + ti, ctx.new_pid(), rng.ident()) if rng.chance(0.5) else worlds.op_exec(rng, ctx.new_pid(), rng.ident())
+            threads.append({'tid': 1000 + ti, 'ops': [op]})
+        per = kernel.expand_threads(threads, worlds.catalog()['ids'])
+        return {'threads': threads, 'schedules': [kernel.draw_schedule(rng, per, 'rr1'), kernel.draw_schedule(rng, per, 'uniform')], 'faults': [], 'many': n}
     focus = index % 4
     nthreads = rng.pick([2, 2, 3, 3, 4, 6])
     mix = {'bsd': 3, 'path': 4, 'mach': 2, 'turnstile': 1, 'dyld': 2, 'perf': 2, 'tracedom': 6, 'lookup': 2, 'gstr': 2,
@@ -93,7 +104,14 @@ def generate(rng, index, tier):
         for _ in range(rng.randint(1, 2)):
             a, b = rng.sample(range(len(threads)), 2)
             born = [op['ops'][0]['a'][0] for op in threads[b]['ops'] if op.get('k') == 'seq' and op['ops'] and op['ops'][0].get('name') == 'TRACE_DATA_NEWTHREAD']
-            if born and rng.chance(0.5):
+            r3 = rng.random()
+            if r3 < 0.3:
+                # a new-thread record (exec-copy flag set or not) that names a LIVE peer, emitted inside an open window of its thread
+                nt = worlds.op_newthread(rng, threads[b]['tid'], 71000 + rng.randrange(99), rng.ident())
+                nt['ops'][0]['a'][2] = rng.pick([0, 1, 1, 7])
+                s_, e_ = worlds.domains.draw(rng, 'BSC_read')
+                pert = {'k': 'sys', 'name': 'BSC_read', 's': s_, 'e': e_, 'in': [nt]}
+            elif born and r3 < 0.65:
                 pert = {'k': 'one', 'name': 'PERF_THD_Data', 'q': 0, 'a': [70000 + rng.randrange(99), rng.pick(born), 0, 0]}
             else:
                 pert = {'k': 'one', 'name': 'TRACE_DATA_THREAD_TERMINATE', 'q': 0, 'a': [threads[b]['tid'], 0, 0, 0]}
@@ -139,6 +157,11 @@ def execute(scn):
             bump('probe:dropped_record')
     if len(per) >= 3:
         bump('probe:three_or_more_threads')
+    if scn.get('many'):
+        bump('probe:many_threads_pending')
+    tids = {th['tid'] for th in scn['threads']}
+    if any(r['a'][0] in tids for p in per for r in p if table.get(r['id']) == 'TRACE_DATA_NEWTHREAD'):
+        bump('probe:newthread_names_live_peer')
     viols = []
     hist = []
     base = {}
